@@ -552,3 +552,11 @@ package gorm
 //@   min-sites 1
 //@   entry viaOnConflict == 0
 //@   assert through-on-conflict: viaOnConflict != 0 && ref(arg0) == viaOnConflict [C16]
+
+//@ # handle identity fields are set when a handle is created and never afterwards
+//@ immutable DB.clone
+//@   writers gorm.(*DB).Session gorm.(*DB).getInstance gorm.Open gorm.(*DB).*
+//@   tags C16 C15 C06
+//@ immutable Statement.DB
+//@   writers gorm.(*DB).Session gorm.(*DB).getInstance gorm.Open gorm.(*DB).* gorm.(*Statement).clone
+//@   tags C16 C15 C06
